@@ -42,6 +42,7 @@ import (
 	"verifharness/ref/authvar"
 	"verifharness/ref/devpath"
 	"verifharness/ref/esl"
+	"verifharness/ref/guid"
 	"verifharness/sandbox"
 )
 
@@ -340,6 +341,23 @@ func init() {
 			efi.GetCurrentlyBootedEntry()
 			return stage, nil
 		},
+		"append_data": func(in []byte) (int, error) {
+			// data handed to the building API as it comes out of a file: DER or PEM text of whatever kind
+			owner := util.EFIGUID{Data1: 0x11223344, Data2: 0x5566, Data3: 0x7788, Data4: [8]byte{1, 2, 3, 4, 5, 6, 7, 8}}
+			db := signature.NewSignatureDatabase()
+			err := db.Append(signature.CERT_X509_GUID, owner, in)
+			if err == nil {
+				_ = db.Bytes()
+			}
+			db.Append(signature.CERT_SHA256_GUID, owner, in)
+			l := signature.NewSignatureList(signature.CERT_X509_GUID)
+			if lerr := l.AppendBytes(owner, in); lerr == nil {
+				_ = l.Bytes()
+			}
+			db.AppendSignature(signature.CERT_X509_GUID, &signature.SignatureData{Owner: owner, Data: in})
+			_ = db.Bytes()
+			return stageErr(err)
+		},
 		"readkey": func(in []byte) (int, error) {
 			_, err := util.ReadKey(in)
 			return stageErr(err)
@@ -498,6 +516,39 @@ func validFor(t *rapid.T, entry string) []byte {
 		default:
 			return append(attrs, util.MarshalUtf16Var(gen.UnicodeString(12).Draw(t, "s"))...)
 		}
+	case "append_data":
+		// a certificate as DER or inside a PEM block of one of the kinds tools write, whole or cut short, or a body
+		// whose DER length field promises more (or absurdly more) than there is
+		cert := gen.FixedIdents()[rapid.IntRange(0, 3).Draw(t, "cert")].Cert.Raw
+		var body []byte
+		switch rapid.IntRange(0, 6).Draw(t, "body") {
+		case 0, 1:
+			body = cert
+		case 2:
+			body = cert[:rapid.IntRange(0, len(cert)-1).Draw(t, "cut")]
+		case 3:
+			body = cert[:rapid.IntRange(0, 6).Draw(t, "cuthead")]
+		case 4:
+			body = append([]byte{0x30, 0x84, 0xff, 0xff, 0xff, 0xff}, cert[4:]...)
+		case 5:
+			body = append([]byte{0x30, byte(0x80 | rapid.IntRange(0, 127).Draw(t, "lenlen"))}, gen.FillBytes(t, rapid.IntRange(0, 12).Draw(t, "lenbytes"))...)
+		default:
+			// trust settings the way `openssl x509 -trustout` appends them behind the certificate
+			body = append(append([]byte{}, cert...), 0x30, 0x0c, 0x30, 0x0a, 0x06, 0x08, 0x2b, 0x06, 0x01, 0x05, 0x05, 0x07, 0x03, 0x01)
+		}
+		if rapid.IntRange(0, 4).Draw(t, "der") == 0 {
+			return body
+		}
+		typ := rapid.SampledFrom([]string{"CERTIFICATE", "CERTIFICATE", "TRUSTED CERTIFICATE", "X509 CERTIFICATE", "PKCS7", "CERTIFICATE REQUEST", "PRIVATE KEY", "certificate", ""}).Draw(t, "pemtype")
+		blk := &pem.Block{Type: typ, Bytes: body}
+		if rapid.IntRange(0, 5).Draw(t, "pemheaders") == 0 {
+			blk.Headers = map[string]string{"Proc-Type": "4,ENCRYPTED"}
+		}
+		out := pem.EncodeToMemory(blk)
+		if rapid.IntRange(0, 3).Draw(t, "text_around") == 0 {
+			out = append(append([]byte("subject=CN = verif\n"), out...), []byte("trailing text\n")...)
+		}
+		return out
 	case "readkey", "readcert":
 		// one or several PEM blocks in any order (a combined key + certificate file), with text around them
 		k, _ := x509.MarshalPKCS8PrivateKey(gen.Keys()[rapid.IntRange(0, 1).Draw(t, "k")])
@@ -688,6 +739,29 @@ func genCase(t *rapid.T) Case {
 			}
 		}
 		return Case{Entry: entry, Input: out, Class: "one_list_of_many_distinct_hashes"}
+	}
+	if entry == "append_data" && rapid.Bool().Draw(t, "asis") {
+		return Case{Entry: entry, Input: valid, Class: "data_as_it_comes_from_a_file"}
+	}
+	if off, isESL := map[string]int{"sigdb": 0, "siglist": 0, "typed_getters": 4, "legacy_getters": 4, "testfs_write": 0}[entry]; isESL && len(valid) >= off && rapid.IntRange(0, 7).Draw(t, "headergrid") == 0 {
+		// a list header put together field by field from the values that matter for each: every signature type the
+		// specification names (handled by the library or not) with the boundary values of the three sizes
+		typ := rapid.SampledFrom([]guid.G{esl.X509, esl.SHA256, esl.SHA1, esl.SHA384, esl.SHA512, esl.RSA2048, esl.ExtMgm,
+			{D1: 0x0b6e5233, D2: 0xa65c, D3: 0x44c9, D4: [8]byte{0x94, 0x07, 0xd9, 0xab, 0x83, 0xbf, 0xc8, 0xbd}}, // SHA224
+			{D1: 0x3bd2a492, D2: 0x96c0, D3: 0x4079, D4: [8]byte{0xb4, 0x20, 0xfc, 0xf9, 0x8e, 0xf1, 0x03, 0xed}}, // X509_SHA256
+			{D1: 0x7076876e, D2: 0x80c2, D3: 0x4ee6, D4: [8]byte{0xaa, 0xd2, 0x28, 0xb3, 0x49, 0xa6, 0x86, 0x5b}}, // X509_SHA384
+			{D1: 0x446dbf63, D2: 0x2502, D3: 0x4cda, D4: [8]byte{0xbc, 0xfa, 0x24, 0x65, 0xd2, 0xb0, 0xfe, 0x9d}}, // X509_SHA512
+		}).Draw(t, "gridtype")
+		sig := rapid.SampledFrom([]uint32{0, 0, 0, 1, 15, 16, 17, 36, 48, 64, 80, 0x80000000, 0xffffffff}).Draw(t, "gridsigsize")
+		hdr := rapid.SampledFrom([]uint32{0, 0, 0, 1, 16, 28, 0xffffffff}).Draw(t, "gridhdrsize")
+		bodyLen := rapid.SampledFrom([]int{0, 0, 1, 16, 48, 96, 200}).Draw(t, "gridbody")
+		ls := rapid.SampledFrom([]uint32{0, 27, 28, 28, 29, 44, uint32(28 + bodyLen), uint32(28 + bodyLen), uint32(28 + bodyLen + 1), 0xffffffff}).Draw(t, "gridlistsize")
+		out := append(append([]byte{}, valid[:off]...), typ.Wire()...)
+		out = binary.LittleEndian.AppendUint32(out, ls)
+		out = binary.LittleEndian.AppendUint32(out, hdr)
+		out = binary.LittleEndian.AppendUint32(out, sig)
+		out = append(out, gen.FillBytes(t, bodyLen)...)
+		return Case{Entry: entry, Input: out, Class: "list_header_from_boundary_values"}
 	}
 	in, class := mutate(t, valid)
 	if rapid.IntRange(0, 9).Draw(t, "second") == 0 {
